@@ -585,6 +585,23 @@ pub fn convert_like_cli(fmt: &str, input: &str) -> Result<String, String> {
     }
 }
 
+/// the real `darklua convert <file>` (binary built from /repo, path in DLV_DARKLUA_BIN): stdout is the Lua text
+pub fn convert_with_cli(bin: &str, dir: &std::path::Path, fmt: &str, input: &str) -> Result<String, String> {
+    let file = dir.join(format!("data.{}", fmt));
+    std::fs::write(&file, input).map_err(|e| format!("cannot write the document: {}", e))?;
+    let out = std::process::Command::new(bin)
+        .arg("convert")
+        .arg(&file)
+        .output()
+        .map_err(|e| format!("cannot run {}: {}", bin, e))?;
+    if !out.status.success() {
+        let err = String::from_utf8_lossy(&out.stderr);
+        // the CLI reports a document it cannot read or convert as an error: the same classes as the library path
+        return Err(format!("input-rejected: (cli) {}", err.chars().take(200).collect::<String>()));
+    }
+    String::from_utf8(out.stdout).map_err(|_| "cli wrote invalid UTF-8".to_string())
+}
+
 /// `return require('./data.<ext>')` bundled by the real darklua
 pub fn bundle_data(fmt: &str, input: &str, v: u32) -> Result<String, String> {
     let resources = Resources::from_memory();
@@ -689,6 +706,9 @@ pub fn main(args: &[String]) -> i32 {
     let mut status = Out::new(arg_value(args, "--status"));
     let how = arg_value(args, "--corrupt").unwrap_or("");
     let mut seen: HashMap<String, String> = HashMap::new();
+    let cli_bin: Option<String> = std::env::var("DLV_DARKLUA_BIN").ok().filter(|p| std::path::Path::new(p).is_file());
+    let cli_dir = tempfile::tempdir().expect("temp dir");
+    let (mut ncli, mut nspawned) = (0usize, 0usize);
     for c in cases {
         let cid = c["id"].as_str().expect("id").to_string();
         let d = &c["d"];
@@ -710,7 +730,22 @@ pub fn main(args: &[String]) -> i32 {
                         continue;
                     }
                     let id = format!("{}|{}|{}|{}", cid, ext, v, path);
-                    let r = guarded(|| if path == "convert" { convert_like_cli(ext, &doc) } else { bundle_data(ext, &doc, v) });
+                    // `darklua convert` itself (the binary) for every YAML / TOML document and one JSON document in three; the
+                    // library-level transcription of the command for the others
+                    ncli += 1;
+                    let use_cli = path == "convert" && cli_bin.is_some() && (ext != "json" && ext != "json5" || ncli % 3 == 0);
+                    let r = guarded(|| {
+                        if use_cli {
+                            convert_with_cli(cli_bin.as_deref().unwrap(), cli_dir.path(), ext, &doc)
+                        } else if path == "convert" {
+                            convert_like_cli(ext, &doc)
+                        } else {
+                            bundle_data(ext, &doc, v)
+                        }
+                    });
+                    if use_cli {
+                        nspawned += 1;
+                    }
                     let lua = match r {
                         Err(p) => {
                             status.emit(&json!({"id": id, "case": cid, "fmt": ext, "path": path, "variant": v, "status": format!("panic: {}", p), "doc": doc, "out": ""}));
@@ -746,6 +781,7 @@ pub fn main(args: &[String]) -> i32 {
             }
         }
     }
+    status.emit(&json!({"id": "@cli", "case": "@cli", "fmt": "", "path": "cli-summary", "variant": 0, "status": format!("cli-runs:{}", nspawned), "doc": "", "out": ""}));
     out.flush();
     status.flush();
     0
